@@ -394,6 +394,15 @@ def generate(rng, index, cfg):
         ops += [x, config_op(), copy.deepcopy(x)]
         if rng.random() < 0.5:
             ops += [{"op": "reset"}, copy.deepcopy(x)]
+    if rng.random() < 0.3:
+        # key-list ignores on one path, before and after a reset, with calls in between
+        pth = rng.choice(sorted(IGNORE_KEYS))
+        k1, k2 = rng.sample(IGNORE_KEYS[pth], 2)
+        x = _compared()
+        ops += [{"op": "ignores", "cfg": {pth: k1}}, x, {"op": "reset"}, copy.deepcopy(x),
+                {"op": "ignores", "cfg": {pth: k2}}, copy.deepcopy(x)]
+        if rng.random() < 0.5:
+            ops += [compared()]
     if ops[-1]["op"] not in ("diff", "merge", "decide"):
         ops.append(compared())
     return {"swarm": swarm, "pool": flat, "ops": ops}
